@@ -471,12 +471,37 @@ func indexAll(s string, c byte) []int {
 
 // perturbLeaf edits one comparison into a near-identical one. The returned tag
 // names the axis (for the distribution histogram).
-func perturbLeaf(r *rand.Rand, l *M) string {
+//
+// Free-form edits of the literal (blanks, case, single characters) are applied
+// where the comparison is a string comparison by construction: a variable whose
+// environment value is not a PEP 440 version, a literal without a wildcard.
+// On version-valued variables and on `extra` the literal is instead replaced
+// by another member of the literal pools of the marker stream (alternative
+// spellings, blanks around versions, other extras), whose single comparisons
+// the small-scope exhaustive stream enumerates: the universes are about what the
+// resolver shares between markers, not a second search for leaf-level
+// disagreements outside the catalogued classes.
+func perturbLeaf(r *rand.Rand, env map[string]string, l *M) string {
 	defer fixLeaf(l)
 	blanks := indexAll(l.Lit, ' ')
 	axis := r.Intn(10)
 	if len(blanks) > 0 && r.Intn(2) == 0 {
 		axis = 0
+	}
+	_, versionVar := refParseVersion(env[l.Var])
+	if freeform := l.Var != "extra" && !versionVar && !strings.Contains(l.Lit, "*"); !freeform && (axis <= 4 || axis == 9) {
+		pool := litsAny
+		switch {
+		case l.Var == "extra":
+			pool = litsExtra
+		case versionVar:
+			pool = append(append([]string{}, litsVersion...), litsAltVersion...)
+		}
+		old := l.Lit
+		for try := 0; try < 4 && l.Lit == old; try++ {
+			l.Lit = pick(r, pool...)
+		}
+		return "lit-from-pool"
 	}
 	switch axis {
 	case 0, 1, 2: // white space inside the quoted literal
@@ -619,7 +644,7 @@ func familyVariants(r *rand.Rand, env map[string]string, want int) []uVariant {
 				m := buildFlat([]*M{lf(0), lf(1), lf(2)}, cs)
 				var ls []*M
 				m.leaves(func(l *M) { ls = append(ls, l) })
-				return m, "leaf:" + perturbLeaf(r, ls[r.Intn(len(ls))])
+				return m, "leaf:" + perturbLeaf(r, env, ls[r.Intn(len(ls))])
 			},
 			func() (*M, string) {
 				// quote swallow: a double-quoted literal that spans what is, with single
@@ -628,15 +653,10 @@ func familyVariants(r *rand.Rand, env map[string]string, want int) []uVariant {
 				if a.Flip || b.Flip || strings.ContainsAny(a.Lit+b.Lit, `'"`) {
 					return buildFlat([]*M{lf(1), lf(0), lf(2)}, cs), "operands-swapped"
 				}
-				bop := b.Op
-				if bop == "not in" {
-					bop = "not in"
-				}
-				lit := a.Lit + "' " + cs[0] + " " + b.Var + " " + bop + " '" + b.Lit
+				lit := a.Lit + "' " + cs[0] + " " + b.Var + " " + b.Op + " '" + b.Lit
 				return buildFlat([]*M{stdLeaf(a.Var, a.Op, lit, false), lf(2)}, cs[1:]), "quote-swallow"
 			},
 		}
-		// for the quote-swallow variant to be near-identical the flat form uses the plain layout
 		for _, i := range r.Perm(len(shapes)) {
 			if len(out) >= want {
 				break
@@ -650,9 +670,9 @@ func familyVariants(r *rand.Rand, env map[string]string, want int) []uVariant {
 	out = append(out, uVariant{cloneM(base), "base"})
 	for len(out) < want {
 		m := cloneM(base)
-		how := perturbLeaf(r, m)
+		how := perturbLeaf(r, env, m)
 		if r.Intn(4) == 0 {
-			how += "+" + perturbLeaf(r, m)
+			how += "+" + perturbLeaf(r, env, m)
 		}
 		switch r.Intn(8) {
 		case 0:
@@ -689,7 +709,7 @@ func mkReq(m *M, raw string) uReq {
 // runUniverses is the generator: families of near-identical markers with
 // different reference truth values, placed in one requirement list or spread
 // over several roots resolved in sequence on one resolver.
-func runUniverses(c *fw.Ctx, checkMarker func(i int, line, res string)) {
+func runUniverses(c *fw.Ctx, checkMarker func(i int, line, res string), toPackaging func(m *M, raw string, extras []string)) {
 	r := c.Rng
 	env := refEnv()
 	mixed, total := 0, 0
@@ -758,6 +778,7 @@ func runUniverses(c *fw.Ctx, checkMarker func(i int, line, res string)) {
 				sl := markerLine("resolve", q.raw, rt.extras, m)
 				i, sres := c.Op(sl)
 				checkMarker(i, sl, sres)
+				toPackaging(m, q.raw, rt.extras) // evidence for the reference on these literals
 				idx = append(idx, i)
 				if len(markerClasses(m, env, rt.extras)) == 0 {
 					free++
